@@ -1,7 +1,7 @@
 (* C18 proofs, part b: write_cache / read_cached round trip at the level of characters *)
 From Coq Require Import ZArith List Bool Lia Permutation Sorting.Sorted DecimalZ DecimalPos.
 Import ListNotations.
-From SCMO Require Import Lib.Val Model.C18 Proofs.C18_a.
+From SCMO Require Import Lib.Val Gen.GenAlleles Model.C18 Proofs.C18_s Proofs.C18_a.
 Open Scope Z_scope.
 
 (* ------------------------------------------------------------------ integers as decimal strings *)
